@@ -159,12 +159,18 @@ def run_case(case, workdir):
                     f"(max abs deviation {float(np.max(d)) if x_start.shape == x_want.shape else 'shape'})", wc))
             else:
                 probes["kernel_start_rows_checked"] = probes.get("kernel_start_rows_checked", 0) + 1
+    n_it = len(r.history.beta)
+    want_calls = n_it + (1 if (n_final is not None and n_final != scn["n_samples"]) else 0)
+    if len(calls) != want_calls:
+        V.append(O.violation("c09.resample_count",
+                             f"{n_it} iterations{' plus the final enlargement' if want_calls > n_it else ''} but the generator was asked for resampling indices "
+                             f"{len(calls)} times", where, calls=len(calls), iterations=n_it))
     # ---- field integrity with adversarial answers on every stored population
     rng = rng_from(case["fault_seed"])
     n_adv = 0
     for pi, pop in enumerate(r.history.sample_history):
         n = len(pop.x)
-        for mode in ("all_equal", "reversed", "repeats", "resize"):
+        for mode in ("all_equal", "reversed", "repeats", "resize", "tiny_step"):
             size = n if mode != "resize" else int(rng.integers(1, 2 * n + 1))
             if mode == "all_equal":
                 idx = np.full(size, int(rng.integers(n)))
@@ -175,8 +181,21 @@ def run_case(case, workdir):
             g = make_generator(1)
             g.choice_hook = lambda a, s, p, _idx=idx: _idx
             b_new = float(rng.uniform(float(pop.beta) + 1e-3, 1.5))
+            if mode == "tiny_step":
+                # a genuine but tiny temperature move (what the forced minimal-progress step of a peaked problem produces)
+                b_new = float(pop.beta) + float(rng.choice([1e-9, 1e-6, 4e-6, 1e-5]))
+                if b_new == float(pop.beta):
+                    continue
             try:
-                out = pop.resample(b_new, n_samples=None if mode in ("all_equal", "reversed", "repeats") and size == n and mode == "reversed" else size, rng=g)
+                n_arg = None if mode in ("reversed", "tiny_step") else size
+                n_draws_before = g.n_draws
+                out = pop.resample(b_new, n_samples=n_arg, rng=g)
+                if g.n_draws == n_draws_before:
+                    V.append(O.violation(
+                        "c09.no_draw",
+                        f"resample(beta={b_new!r}) of stored population {pi} at beta={float(pop.beta)!r} never asked the generator for indices: "
+                        f"a genuine temperature move was not resampled", {**where, "mode": mode, "step": b_new - float(pop.beta)}))
+                    continue
             except Exception as e:  # noqa: BLE001
                 V.append(O.violation("c09.resample_raised", f"SMCSamples.resample raised on stored population {pi}: {type(e).__name__}: {e}", where))
                 continue
